@@ -162,6 +162,8 @@ func C08(c *Ctx) {
 		c08d(c, a)
 	}
 	r.Min("LeftRecursion variants", 8, n)
+	// the flags the runtime dispatches on are the ones the analysis computed, for every rule
+	builderPairing(c, "C08-c", "writeRule")
 }
 
 func c08d(c *Ctx, a *absVariant) {
